@@ -329,6 +329,38 @@ def d8_exhaustive(chk: Check) -> None:
                "inversion flag")
 
 
+def d4c_verdict_per_element(chk: Check, rid: str = "C01-D4c") -> None:
+    """A match test inside an element loop judges a verdict computed for
+    *that* element (rules/inversion.stale_verdicts): no path from the top
+    of the loop body reaches the test without assigning the matched flag.
+    Otherwise an element for which the inner (descendant) search finds
+    nothing inherits the verdict of the element before it."""
+    prog = chk.prog
+    chk.rule(rid, "inside an element loop of the search handlers the "
+             "matched flag is assigned for the element on every path to "
+             "the test that judges it", floor=4)
+    total = 0
+    for q in ("Processor._get_nodes_by_search", "Searches.search_anchor",
+              "KeywordSearches._has_concrete_child",
+              "KeywordSearches._has_anchored_child"):
+        fi = prog.func(q)
+        bad, n = inversion.stale_verdicts(fi)
+        total += n
+        for site, flag in bad:
+            chk.fail(rid, fi, site, "{}: test of `{}` in an element loop"
+                     .format(fi.short, "matched flag"),
+                     "some path through the loop body reaches `{}` without "
+                     "assigning the flag for this element: the verdict of "
+                     "the previous element is judged again (an element "
+                     "without the searched attribute is selected when its "
+                     "predecessor matched)".format(src(site.test)[:60]
+                                                   if hasattr(site, "test")
+                                                   else src(site)[:60]))
+        for _ in range(n - len(bad)):
+            chk.ok(rid, fi, fi.node, fi.short + ": in-loop match test",
+                   "flag assigned on every path", False)
+
+
 def _iter_calls(fi: FuncInfo, suffix: str) -> List[ast.Call]:
     return [n for n in walk_local(fi.node) if isinstance(n, ast.Call)
             and src(n.func).endswith(suffix)]
@@ -762,5 +794,8 @@ def run(chk: Check) -> None:
     d2_drivers(chk)
     d3_notation(chk)
     d4_inversion(chk)
+    d4c_verdict_per_element(chk)
+    from rules.c08 import d12_quoted_text_is_literal
+    d12_quoted_text_is_literal(chk, "C01-D9")
     d5_haystack(chk)
     d6_reference(chk)
